@@ -22,7 +22,9 @@ _SCRATCH = None
 _FILES = {}
 _EXTRA_TREES = {}  # id -> dsl.Tree registered at run time (generated trees, mutants)
 
-FIXROOT = "/repo/test"
+from . import REPO  # noqa: E402
+
+FIXROOT = REPO + "/test"
 
 
 def scratch():
